@@ -20,10 +20,12 @@ import (
 	"encoding/json"
 	"fmt"
 	"io"
+	"net/http"
 	"os"
 	"path/filepath"
 	"strings"
 	"testing"
+	"time"
 
 	vegeta "github.com/tsenart/vegeta/v12/lib"
 	"github.com/tsenart/vegeta/v12/verifshim/ev"
@@ -288,6 +290,20 @@ func TestC08(t *testing.T) {
 			}
 		}
 	}
+	// records larger than every I/O buffer on the path (bufio 4 KiB, Scanner 64 KiB): a 100 000 byte body
+	// first / in the middle / last. Too long for every split: fixed chunk sizes around the buffer sizes and
+	// two-chunk splits at the interesting offsets.
+	huge := vegeta.Result{Attack: "huge", Seq: 9, Code: 200, Timestamp: time.Date(2024, 3, 1, 12, 0, 0, 7, time.UTC), Latency: time.Millisecond,
+		BytesIn: 100000, Body: cresBigBody(100000), Method: "GET", URL: "http://huge/", Headers: http.Header{"X-H": {"1"}}}
+	for hi, rs := range [][]vegeta.Result{{huge}, {huge, p[1], p[2]}, {p[1], huge, p[2]}, {p[5], p[1], huge}} {
+		streams = append(streams, []int{-1 - hi})
+		for _, c := range cresCodecs {
+			data := cresEncode(c.name, rs)
+			R.Trans(len(rs))
+			R.State(1)
+			jobs = append(jobs, djob{len(streams) - 1, c, rs, data, "huge", 0, 0})
+		}
+	}
 	out := make([][]c08Viol, len(jobs))
 	ev.Parallel(len(jobs), 16, func(ji int) {
 		j := jobs[ji]
@@ -310,6 +326,15 @@ func TestC08(t *testing.T) {
 		case "fixed":
 			for _, f := range []int{1, 2, 7, 4095, 4096, 4097} {
 				run(fmt.Sprintf("fixed chunks of %d", f), &c08ChunkReader{data: j.data, fixed: f}, f < len(j.data))
+			}
+		case "huge":
+			for _, f := range []int{7, 4096, 65535, 65536, 65537, 1 << 20} {
+				run(fmt.Sprintf("fixed chunks of %d", f), &c08ChunkReader{data: j.data, fixed: f}, f < len(j.data))
+			}
+			for _, k := range []int{1, 4095, 4096, 4097, 65535, 65536, 65537, 100000, len(j.data) / 2, len(j.data) - 1} {
+				if k > 0 && k < len(j.data) {
+					run(fmt.Sprintf("chunks (%d, rest)", k), &c08ChunkReader{data: j.data, sizes: []int{k}}, true)
+				}
 			}
 		case "three":
 			for a := j.lo; a < j.hi; a++ {
